@@ -452,10 +452,19 @@ func (sc *serverConn) readLoop() (err error) {
 		case FrameGoAway:
 			ga := fr.Body().(*GoAway)
 			if ga.Code() == NoError {
-				err = io.EOF
-			} else {
-				err = fmt.Errorf("goaway: %s: %s", ga.Code(), ga.Data())
+				// The peer is going away gracefully: it opens no more streams
+				// and waits for the answers it is still owed (RFC 7540 6.8).
+				// Dropping the connection here dropped those. The stream loop
+				// knows what is in flight, and ends the connection once it is
+				// done.
+				if !sc.toStreamLoop(fr) {
+					return errConnClosed
+				}
+
+				continue
 			}
+
+			err = fmt.Errorf("goaway: %s: %s", ga.Code(), ga.Data())
 		default:
 			sc.connError(ProtocolError, "invalid frame")
 			ReleaseFrameHeader(fr)
@@ -776,9 +785,25 @@ loop:
 						sc.flushStreams(strms, closeStream)
 					}
 				case FrameGoAway:
+					ga := fr.Body().(*GoAway)
+
+					if ga.Code() == NoError {
+						// From the peer, which is going away: no new streams
+						// from here on, the requests being served are finished,
+						// and then the connection goes.
+						if !isClosing() {
+							sc.writeGoAway(sc.lastID, NoError, "the peer is going away")
+						}
+
+						if canCloseAfterGoAway() {
+							break loop
+						}
+
+						continue
+					}
+
 					// Not from the peer: the read loop reporting a connection
 					// error (see connError).
-					ga := fr.Body().(*GoAway)
 					sc.writeGoAway(0, ga.Code(), string(ga.Data()))
 
 					break loop
